@@ -22,10 +22,12 @@ type Params struct {
 	MaxAttempts int
 	Outcomes    []ch.Outcome
 	Tag         string
+	// SyncTimers: explore under Go 1.23 timer semantics (Reset/Stop discard an unreceived tick) instead of the older ones
+	SyncTimers bool
 }
 
 func (p Params) Name() string {
-	return fmt.Sprintf("init%v-mul%v-jit%v-maxint%v-maxel%v-retries%d-att%d", p.B.InitialInterval, p.B.Multiplier, p.B.Jitter, p.B.MaxInterval, p.B.MaxElapsedTime, p.B.MaxRetries, p.MaxAttempts) + p.Tag
+	return fmt.Sprintf("init%v-mul%v-jit%v-maxint%v-maxel%v-retries%d-att%d", p.B.InitialInterval, p.B.Multiplier, p.B.Jitter, p.B.MaxInterval, p.B.MaxElapsedTime, p.B.MaxRetries, p.MaxAttempts) + p.Tag + map[bool]string{true: "-synctimers", false: ""}[p.SyncTimers]
 }
 
 type retryRec struct {
@@ -268,7 +270,7 @@ func Scenarios(tier string) []run.Scenario {
 							}
 							add := func(p Params) {
 								out = append(out, run.Scenario{Name: p.Name(), Body: body(p), Check: check(p), Sig: sig, Summary: summary,
-									Opts: vrt.Options{PreemptBound: -1, FaultBound: draws, OrderBound: -1, Prune: false}})
+									Opts: vrt.Options{PreemptBound: -1, FaultBound: draws, OrderBound: -1, Prune: false, SyncTimers: p.SyncTimers}})
 							}
 							add(p)
 							if jit == -1 && maxEl == 0 {
@@ -277,6 +279,12 @@ func Scenarios(tier string) []run.Scenario {
 								q.Tag = "-ignored-retry-fields"
 								q.MaxAttempts = 3
 								q.Outcomes = []ch.Outcome{{Kind: "fail"}, {Kind: "ok", Stream: "retry:7\n\nretry:\n\n", End: "eof"}, {Kind: "ok", Stream: "retry:9\n\nretry\n\nretry: \n\nretry:1x\n\n", End: "err"}}
+								add(q)
+								// the same histories as the main scenario under the other timer semantics
+								r := p
+								r.SyncTimers = true
+								add(r)
+								q.SyncTimers = true
 								add(q)
 							}
 							if (mr == 3 || mr == 0) && (tier == "thorough" || init == time.Microsecond) {
@@ -299,7 +307,7 @@ func Scenarios(tier string) []run.Scenario {
 
 var Check = &run.Check{
 	ID: "C12", Level: "model_checking",
-	Rule: "Scenarios: every combination of InitialInterval {default, 1us, 1s} x Multiplier {default, 1, 2} x Jitter {default, -1, 0.25, 0.999} x MaxInterval {0, 3x initial} x MaxElapsedTime {0, 5x initial} x MaxRetries {-1, 0, 1, 3}; inside each scenario the explorer chooses every history of attempt outcomes up to the attempt bound from {transport failure, connect then drop, connect + retry field 7 / 0 / 1e12 (1e11 where the interval grows, to stay inside int64 nanoseconds) / +7 (thorough also 7x, -1, empty, two fields + read error); for Jitter -1 also a valid value followed on the same connection by empty / nameless / blank / malformed retry fields} and the random draws: 0.5 by default, with up to 1 (thorough 2) draws per execution replaced by 0 or 1-2^-53 at every position; the real Connect loop runs on the virtual clock (a wait of 1e12 ms costs nothing). Oracle: closed-form schedule (growth, cap, reset on success, server override, limits) compared with the waits reported to OnRetry, the durations the timer was armed with, and the virtual times of the attempts.",
+	Rule: "Scenarios: every combination of InitialInterval {default, 1us, 1s} x Multiplier {default, 1, 2} x Jitter {default, -1, 0.25, 0.999} x MaxInterval {0, 3x initial} x MaxElapsedTime {0, 5x initial} x MaxRetries {-1, 0, 1, 3}; inside each scenario the explorer chooses every history of attempt outcomes up to the attempt bound from {transport failure, connect then drop, connect + retry field 7 / 0 / 1e12 (1e11 where the interval grows, to stay inside int64 nanoseconds) / +7 (thorough also 7x, -1, empty, two fields + read error); for Jitter -1 also a valid value followed on the same connection by empty / nameless / blank / malformed retry fields} and the random draws: 0.5 by default, with up to 1 (thorough 2) draws per execution replaced by 0 or 1-2^-53 at every position; the real Connect loop runs on the virtual clock, under the timer semantics of go 1.22 modules (a stale tick survives Reset) and, for the Jitter -1 configurations, also under those of go 1.23 (Reset and Stop discard it) (a wait of 1e12 ms costs nothing). Oracle: closed-form schedule (growth, cap, reset on success, server override, limits) compared with the waits reported to OnRetry, the durations the timer was armed with, and the virtual times of the attempts.",
 	Assumptions: []string{
 		"attempts take no virtual time; MaxElapsedTime is measured from the last successful connection (or the start of Connect), as the implementation documents",
 		"a retry value is valid iff it consists of ASCII digits; values up to 1e12 ms are used",
